@@ -133,6 +133,9 @@ def execRaw (q : Quirks) (c : Conn) (now : Nat) (obs : Option (List Bytes)) (raw
     | some inner => { c with store := (KS.step q c.store c.cur now inner obs).1 }
     | none => { c with store := (KS.step q c.store c.cur now raw obs).1 }
 
+/-- a restart that brings the dataset back (e.g. from a snapshot taken right before): the connection is a new one -/
+def Conn.restarted (c : Conn) : Conn := { c with cur := 0 }
+
 /-- One thing that happened on the server, in execution order. -/
 inductive Ev where
   /-- a command of the observed connection that is executed: sent directly (`viaExec = false`) or executed by EXEC
@@ -189,6 +192,14 @@ structure LogSt where
   /-- database a reader of the entries so far has selected -/
   file : Nat := 0
   deriving Repr, DecidableEq
+
+/-- "no database": what the engine's `last_db` is (`None`) when it inherits a non-empty file from an earlier run — it does
+    not know where a reader of that file stands, so the first entry of the new run is preceded by a `SELECT` whatever
+    its database (every database is `< 16`, hence `≠ unknownDb`) -/
+def unknownDb : Nat := 16
+
+/-- after a restart in the same directory: every client connects anew (database 0), the engine knows nothing of the file -/
+def LogSt.restarted : LogSt := { conn := 0, file := unknownDb }
 
 /-- the `SELECT` to emit before an entry that must run in database `d` -/
 def selFor (cfg : Cfg) (st : LogSt) (d : Nat) : List (List Bytes) :=
